@@ -419,6 +419,7 @@ func c04Recursion(p *Program, r *Report, g *Guards, reach map[*ssa.Function]bool
 		// "progress" edges; the rest of the component must be acyclic.
 		type edge struct{ from, to *ssa.Function }
 		free := map[edge]token.Pos{} // edges without guaranteed progress
+		inputOnly := map[edge]ssa.CallInstruction{}
 		unprot := map[*ssa.Function]map[*ssa.BasicBlock]bool{}
 		for _, f := range comp {
 			unprot[f] = unprotectedBlocks(f)
@@ -443,12 +444,22 @@ func c04Recursion(p *Program, r *Report, g *Guards, reach map[*ssa.Function]bool
 					}
 					// progress: every path from the entry to this call has consumed input, or the call
 					// descends into a strict sub-structure of its own parameter
-					progress := !unprot[f][b] || blockConsumesBefore(b, i) || descends(ci.Common(), f) ||
+					structural := descends(ci.Common(), f) ||
 						nilWhenUnconsumed(ci.Common(), f, unprot[f]) && targetsIgnoreNil(p, targets, inComp)
+					progress := !unprot[f][b] || blockConsumesBefore(b, i) || structural
 					if !progress {
 						for _, t := range targets {
 							if _, ok := free[edge{f, t}]; !ok {
 								free[edge{f, t}] = ins.Pos()
+							}
+						}
+					}
+					if !structural && !descendsAny(ci.Common(), f) {
+						// progress (if any) comes from consuming input only: the depth of this
+						// recursion is chosen by the peer
+						for _, t := range targets {
+							if _, ok := inputOnly[edge{f, t}]; !ok {
+								inputOnly[edge{f, t}] = ci
 							}
 						}
 					}
@@ -488,6 +499,66 @@ func c04Recursion(p *Program, r *Report, g *Guards, reach map[*ssa.Function]bool
 			if color[f] == 0 && dfs(f, nil) {
 				bad = true
 				break
+			}
+		}
+		// ---- recursion-depth: a cycle made of input-only edges nests as deep as the peer wishes
+		{
+			col := map[*ssa.Function]int{}
+			var icyc []string
+			var dfs2 func(f *ssa.Function, path []string) bool
+			dfs2 = func(f *ssa.Function, path []string) bool {
+				col[f] = 1
+				for e := range inputOnly {
+					if e.from != f {
+						continue
+					}
+					if col[e.to] == 1 {
+						icyc = append(path, fnKey(f), fnKey(e.to))
+						return true
+					}
+					if col[e.to] == 0 && dfs2(e.to, append(path, fnKey(f))) {
+						return true
+					}
+				}
+				col[f] = 2
+				return false
+			}
+			inputDriven := false
+			for _, f := range comp {
+				if col[f] == 0 && dfs2(f, nil) {
+					inputDriven = true
+					break
+				}
+			}
+			dkey := "cycle{" + names[0] + ",..}#" + fmt.Sprint(len(comp))
+			if inputDriven {
+				// a depth bound: some recursive call passes <int param> + 1 and that parameter is
+				// compared with a limit
+				bounded := false
+				for e, ci := range inputOnly {
+					for ai, a := range ci.Common().Args {
+						bo, ok := a.(*ssa.BinOp)
+						if !ok || bo.Op != token.ADD {
+							continue
+						}
+						if pp, ok := bo.X.(*ssa.Parameter); ok && isIntType(pp.Type()) {
+							for _, ref := range *pp.Referrers() {
+								if cmp, ok := ref.(*ssa.BinOp); ok && (cmp.Op == token.GTR || cmp.Op == token.GEQ || cmp.Op == token.LSS || cmp.Op == token.LEQ) {
+									bounded = true
+								}
+							}
+						}
+						_ = ai
+					}
+					_ = e
+				}
+				if bounded {
+					r.OKf("recursion-depth", dkey, comp[0].Pos(), "input-driven recursion carries a depth counter that is compared with a limit")
+				} else {
+					r.Fail("recursion-depth", dkey, comp[0].Pos(), "the nesting depth of this decode recursion (%s) is bounded only by the length of the input: every level consumes as little as two bytes, a failing parse re-wraps the error at every level (quadratic time and memory in the input length) and the stack grows with the input - a few kilobytes of nested type descriptors stall the decoder for seconds, a megabyte for days", strings.Join(icyc, " -> "))
+				}
+			} else {
+				r.OKf("recursion-depth", dkey, comp[0].Pos(), "the recursion descends a finite structure (codec / data type tree), its depth is not chosen by the input")
 			}
 		}
 		if bad {
@@ -752,4 +823,22 @@ func c04ReflectKeys(p *Program, r *Report, reach map[*ssa.Function]bool) {
 			}
 		}
 	}
+}
+
+// descendsAny: some argument (or the receiver) of the recursive call is a strict projection of
+// any parameter of the caller: the recursion walks a finite structure handed in by the caller
+// (a codec tree), whatever position it travels in.
+func descendsAny(call *ssa.CallCommon, caller *ssa.Function) bool {
+	args := call.Args
+	if call.IsInvoke() {
+		args = append([]ssa.Value{call.Value}, args...)
+	}
+	for _, a := range args {
+		for _, pp := range caller.Params {
+			if strictProjection(a, pp, 0, 0) {
+				return true
+			}
+		}
+	}
+	return false
 }
